@@ -5,3 +5,4 @@ import PelGen.GenIoDrawer
 import PelGen.GenUserData
 import PelGen.GenDispatch
 import PelGen.GenSrc
+import PelGen.GenHexdump
